@@ -30,7 +30,9 @@ class Config:
         self.sig_mode = 'oracle'       # 'oracle' | 'algebra'
         self.verify_log = []           # (key, message, signature) seen by VerifyKey.verify
         self.sign_log = []             # (seed, message, signature) produced by SigningKey.sign
-        self.hash_log = []             # (alg, input, output)
+        self.hash_log = []             # (alg, input, output): every application on this path
+        self.hash_unique = []          # the applications with pairwise different (syntactic) inputs: related pairwise
+        self.hash_memo = {}            # (alg, input items) -> (input, output)
         self.alloc_log = []            # (what, size) requested sizes of stubbed allocations
         self.random_log = []
         self.point_apps = []
@@ -278,7 +280,15 @@ def hash_model(alg, data, outlen):
         n = len(data)
         val = zi(byte_int(data))
         out = uf_bytes('Hb', outlen, _ALG[alg], n, val)
-    for (a2, d2, o2) in CONFIG.hash_log:
+    # the same (syntactically identical) input again - merkle builders hash one subtree many times: the same output terms, and
+    # no new pairwise constraints (those of the first application already say everything)
+    key = (alg, tuple(x if isinstance(x, int) else zi(x).get_id() for x in items_of(data)))
+    hit = CONFIG.hash_memo.get(key)
+    if hit is not None and len(hit[1]) >= outlen:
+        out = hit[1][:outlen]
+        CONFIG.hash_log.append((alg, data, out))
+        return out
+    for (a2, d2, o2) in CONFIG.hash_unique:
         if a2 != alg:
             continue
         if len(d2) != len(data):
@@ -300,6 +310,8 @@ def hash_model(alg, data, outlen):
         if CONFIG.collision_free and m >= 16:
             e.add(z3.Implies(same_out, same_in))
     CONFIG.hash_log.append((alg, data, out))
+    CONFIG.hash_unique.append((alg, data, out))
+    CONFIG.hash_memo[key] = (data, out)
     return out
 
 
